@@ -291,3 +291,9 @@ package collection
 // no invention: every candidate is a retrievable spatial object
 //@ lemma spatial.sound: allof("map[string]ref", v, allof("map[ref]int", sp, allint(o, allint(q, spOK(v, sp) && memberOf(qSeq(sp, q), o) ==> inV(v, o) && objSpatial(o)))))
 //@ lemma-uses rt.search.content
+
+//@ func Collection.ScanExpires
+//@   requires c != nil && c.expires != nil
+//@   iterates iter seq treeAsc(c.expires, *c.expires) args it position idx1
+//@   modifies nothing
+//@   loop 1 invariant lastret(iter) && nextpos(iter) == idx1
